@@ -1,8 +1,292 @@
 import RbV.Basic.Codec
-/-! Driver for property C19 (line protocol → verdict). -/
-namespace RbV.Drv.C19
-open RbV.Codec
+import RbV.Spec.Occ
+import RbV.Spec.QGram
+import RbV.Spec.KChain
+/-! Driver for property C19 (line protocol → verdict).
 
-def verdict (_toks : List String) (_out : String) : String := "bad-op unimplemented"
+```
+c19 codes  <alpha hex> <q> <text hex>                          => w=<width> f=<codes> r=<codes>
+c19 idx    <alpha hex> <q> <max_count|max> <text hex> <query;query;…>
+                                                               => ok <res;res;…>   |   BUILDPANIC <class>
+           query  g:<gram hex> | m:<min_count>:<pattern hex> | e:<pattern hex>
+           res    positions | ps:pe:ts:te:count,… | ps:pe:ts:te,… | P!<panic class>
+c19 kmer   <k> <x hex> <y hex> <match_score> <gap_open> <gap_extend>
+                                                               => m=<pairs> h1=<pairs> h2=<pairs> score=<n> path=<idx> sdp=<idx> uni=<idx>
+c19 lcs    <k> <x:y,x:y,…>                                     => score=<n> path=<idx>
+c19 sdp    <k> <match_score> <gap_open> <gap_extend> <x:y,…>   => sdp=<idx> uni=<idx>
+c19 expand <k> <allowed_mismatches> <x hex> <y hex> <x:y,…>    => exp=<pairs> score=<n> path=<idx>
+```
+(gap_open / gap_extend are given as magnitudes; the harness negates them.) -/
+namespace RbV.Drv.C19
+open RbV RbV.Codec RbV.QGram RbV.KChain
+
+def leLex : List Nat → List Nat → Bool
+  | [], _ => true
+  | _ :: _, [] => false
+  | a :: l, b :: r => a < b || (a == b && leLex l r)
+
+def sortRecs (l : List (List Nat)) : List (List Nat) := l.mergeSort (fun a b => leLex a b)
+
+def parseRec (n : Nat) (s : String) : Option (List Nat) :=
+  match parseList parseNat s ':' with
+  | some l => if l.length = n then some l else none
+  | none => none
+
+def parseRecs (n : Nat) (s : String) : Option (List (List Nat)) := parseList (parseRec n) s ','
+
+def showRecs (l : List (List Nat)) : String :=
+  if l.isEmpty then "-" else ",".intercalate (l.map fun r => ":".intercalate (r.map toString))
+
+def parsePairs (s : String) : Option (List M) :=
+  (parseRecs 2 s).map (·.map fun r => (r.getD 0 0, r.getD 1 0))
+
+def showPairs (l : List M) : String := showRecs (l.map fun p => [p.1, p.2])
+
+/-- value of `name=` among space separated output fields -/
+def outField (out : String) (name : String) : Option String :=
+  (out.splitOn " ").findSome? fun f =>
+    match f.splitOn "=" with
+    | [k, v] => if k = name then some v else none
+    | _ => none
+
+def isPow2 (n : Nat) : Bool := n > 0 && 2 ^ (Nat.log2 n) == n
+
+def strictLex (ms : List M) : Bool :=
+  match ms with
+  | [] => true
+  | a :: r => (r.zip (a :: r)).all fun (b, a) => a.1 < b.1 || (a.1 == b.1 && a.2 < b.2)
+
+def inAlpha (A : List Nat) (s : List Nat) : Bool := s.all (A.contains ·)
+
+/-! ### codes -/
+
+def verdictCodes (ah qs th out : String) : String :=
+  match parseHex ah, parseNat qs, parseHex th with
+  | some alpha, some q, some text =>
+    let A := alphaSet alpha
+    let b := bitsFor A.length
+    if A.isEmpty || q = 0 || !inAlpha A text then "bad-op codes-domain" else
+    if b * q > 64 then
+      if out.startsWith "PANIC" then "ok refused" else "ok out-of-domain"
+    else
+    match (outField out "w").bind parseNat, (outField out "f").bind parseNatList, (outField out "r").bind parseNatList with
+    | some w, some f, some r =>
+      let exp := fwdCodes A q text
+      if w ≠ b then s!"diff w={b}" else
+      if f ≠ exp then "diff f=" ++ showNatList exp else
+      if r ≠ exp.reverse then "diff r=" ++ showNatList exp.reverse else
+      "ok" ++ (if exp.length ≥ 2 && A.length ≥ 2 then " nt" else "") ++ " codes"
+        ++ (if !isPow2 A.length then " np2" else "") ++ (if b * q = 64 then " full-word" else "")
+        ++ (if b * q > 32 then " wide" else "") ++ (if exp.isEmpty then " short-text" else "")
+    | _, _, _ => if out.startsWith "PANIC" || out.startsWith "HANG" || out.startsWith "CRASH" then "reject " ++ out else "bad-op codes-output"
+  | _, _, _ => "bad-op codes-parse"
+
+/-! ### index -/
+
+inductive Query where
+  | g (gram : List Nat)
+  | m (minc : Nat) (pat : List Nat)
+  | e (pat : List Nat)
+
+def parseQuery (s : String) : Option Query :=
+  match s.splitOn ":" with
+  | ["g", h] => (parseHex h).map Query.g
+  | ["m", c, h] => do let c ← parseNat c; let p ← parseHex h; pure (Query.m c p)
+  | ["e", h] => (parseHex h).map Query.e
+  | _ => none
+
+def Query.pat : Query → List Nat
+  | .g p => p | .m _ p => p | .e p => p
+
+/-- outcome of one query: `none` = as expected; `some (known, text)` -/
+def checkQuery (A : List Nat) (q mc : Nat) (text : List Nat) (qu : Query) (res : String) :
+    Option (Bool × String) × List String :=
+  let b := bitsFor A.length
+  let cap := A.length ^ q
+  let patCodes := fwdCodes A q qu.pat
+  let oobQ := patCodes.any (· ≥ cap)
+  let panicked := res.startsWith "P!"
+  let classify (negdiag : Bool) : Option (Bool × String) :=
+    if res.startsWith "P!index-out-of-bounds" && oobQ then some (true, "known-oob-nonpow2 query " ++ res)
+    else if res.startsWith "P!attempt-to-subtract-with-overflow" && negdiag then some (true, "known-negdiag matches " ++ res)
+    else some (false, "unexpected-panic " ++ res)
+  let _ := b
+  match qu with
+  | .g gram =>
+    let exp := qgramPositions mc gram text
+    if panicked then (classify false, []) else
+    match parseNatList res with
+    | some l => if l = exp then (none, (if exp.isEmpty then [] else ["g-hit"]) ++
+                  (if (occurrences gram text).length > mc then ["masked"] else [])) else (some (false, "g " ++ showNatList exp), [])
+    | none => (some (false, "unparsable " ++ res), [])
+  | .m minc pat =>
+    let H := hits mc q pat text
+    let negdiag := H.any fun h => h.1 > h.2
+    let exp := sortRecs ((matchesRef mc q minc pat text).map fun r => [r.1, r.2.1, r.2.2.1, r.2.2.2.1, r.2.2.2.2])
+    if panicked then (classify negdiag, []) else
+    match parseRecs 5 res with
+    | some l => if sortRecs l = exp then (none, (if exp.isEmpty then [] else ["m-hit"]) ++ (if negdiag then ["negdiag-ok"] else [])
+                    ++ (if exp.length ≥ 2 then ["m-multi-diag"] else []) ++ (if exp.any (fun r => r.getD 4 0 ≥ 2) then ["m-count>=2"] else [])
+                    ++ (if (matchesRef mc q 0 pat text).length > exp.length then ["m-filtered"] else []))
+                else (some (false, "m " ++ showRecs exp), [])
+    | none => (some (false, "unparsable " ++ res), [])
+  | .e pat =>
+    let raw := exactMatchesRef mc q pat text
+    let exp := sortRecs (raw.map fun r => [r.1, r.2.1, r.2.2.1, r.2.2.2])
+    if panicked then (classify false, []) else
+    match parseRecs 4 res with
+    | some l => if sortRecs l = exp then (none, (if exp.isEmpty then [] else ["e-hit"])
+                    ++ (if exp.any (fun r => r.getD 1 0 - r.getD 0 0 > q) then ["e-long"] else [])
+                    ++ (if exp.length ≥ 2 then ["e-multi"] else [])
+                    ++ (if (exp.map fun r => (r.getD 2 0 : Int) - (r.getD 0 0 : Int)).eraseDups.length < exp.length then ["e-split-diag"] else [])
+                    ++ (if exp.any (fun r => r.getD 0 0 > r.getD 2 0) then ["e-negdiag"] else []))
+                else (some (false, "e " ++ showRecs exp), [])
+    | none => (some (false, "unparsable " ++ res), [])
+
+def verdictIdx (ah qs mcs th qus out : String) : String :=
+  match parseHex ah, parseNat qs, (if mcs = "max" then some (2 ^ 64 - 1) else parseNat mcs), parseHex th,
+        parseListNE parseQuery qus ';' with
+  | some alpha, some q, some mc, some text, some queries =>
+    let A := alphaSet alpha
+    let b := bitsFor A.length
+    if A.isEmpty || q = 0 || b * q > 64 || !inAlpha A text || !(queries.all fun qu => inAlpha A qu.pat) then "bad-op idx-domain" else
+    if queries.any (fun qu => match qu with | .g gram => gram.length ≠ q | _ => false) then "bad-op gram-length" else
+    let cap := A.length ^ q
+    let oobText := (fwdCodes A q text).any (· ≥ cap)
+    if out.startsWith "BUILDPANIC " then
+      if (out.drop 11).toString.startsWith "index-out-of-bounds" && oobText then "reject known-oob-nonpow2 build " ++ out
+      else "reject build-panic " ++ out
+    else if !out.startsWith "ok " then
+      (if out.startsWith "PANIC" || out.startsWith "HANG" || out.startsWith "CRASH" then "reject " ++ out else "bad-op idx-output")
+    else
+    let ress := ((out.drop 3).toString.splitOn ";")
+    if ress.length ≠ queries.length then "bad-op idx-arity" else
+    let outcomes := (queries.zip ress).map fun (qu, r) => checkQuery A q mc text qu r
+    let bad := outcomes.filterMap (·.1)
+    match bad.find? (fun x => !x.1) with
+    | some (_, msg) => "diff " ++ msg
+    | none =>
+      match bad.head? with
+      | some (_, msg) => "reject " ++ msg
+      | none =>
+        let tags := (outcomes.flatMap (·.2)).eraseDups
+        let nt := text.length ≥ q && tags.any (fun t => t = "g-hit" || t = "m-hit" || t = "e-hit")
+        "ok" ++ (if nt then " nt" else "") ++ " idx" ++ (if !isPow2 A.length then " np2" else "")
+          ++ (if oobText then " np2-high-code" else "") ++ (if mcs ≠ "max" then " maxcount" else "")
+          ++ String.join (tags.map (" " ++ ·))
+  | _, _, _, _, _ => "bad-op idx-parse"
+
+/-! ### sparse -/
+
+def chainVerdict (what : String) (ms : List M) (k : Nat) (path : List Nat) : Option String :=
+  if !path.all (· < ms.length) then some (what ++ "-index-out-of-range")
+  else if !validChain ms k path then some (what ++ "-chain-invalid")
+  else if path.isEmpty && !ms.isEmpty then some (what ++ "-empty-chain")
+  else none
+
+def optOf (ms : List M) (k : Nat) : Option Nat :=
+  let d := lcskDP ms k
+  if ms.length ≤ 12 && enumOpt ms k ≠ d then none else some d
+
+def lcsCheck (ms : List M) (k : Nat) (out : String) : Option String × List String :=
+  match (outField out "score").bind parseNat, (outField out "path").bind parseNatList with
+  | some sc, some path =>
+    match chainVerdict "lcskpp" ms k path with
+    | some r => (some ("reject " ++ r), [])
+    | none =>
+      match optOf ms k with
+      | none => (some "bad-op oracle-dp-vs-enum", [])
+      | some opt =>
+        let cs := score k (pathMatches ms path)
+        if cs ≠ opt then (some s!"reject lcskpp-chain-not-optimal chain-score={cs} optimum={opt}", [])
+        else if sc ≠ opt then (some s!"diff score={opt}", [])
+        else (none, (if path.length ≥ 2 then ["chain>=2"] else []) ++
+              (if (pathMatches ms path).zip ((pathMatches ms path).drop 1) |>.any (fun (a, b) => cont a b && !nonov k a b) then ["has-cont"] else []) ++
+              (if (pathMatches ms path).zip ((pathMatches ms path).drop 1) |>.any (fun (a, b) => nonov k a b) then ["has-jump"] else []) ++
+              (if ms.length ≤ 12 then ["enum-checked"] else []))
+  | _, _ => (some "bad-op lcs-output", [])
+
+def panicOr (out : String) (v : String) : String :=
+  if out.startsWith "PANIC" || out.startsWith "HANG" || out.startsWith "CRASH" then "reject " ++ out else v
+
+def verdictLcs (ks mss out : String) : String :=
+  match parseNat ks, parsePairs mss with
+  | some k, some ms =>
+    if k = 0 || !strictLex ms then "bad-op lcs-domain" else
+    match lcsCheck ms k out with
+    | (some v, _) => panicOr out v
+    | (none, tags) => "ok" ++ (if ms.length ≥ 2 && tags.contains "chain>=2" then " nt" else "") ++ " lcs" ++ String.join (tags.map (" " ++ ·))
+  | _, _ => "bad-op lcs-parse"
+
+def sdpCheck (ms : List M) (k : Nat) (out : String) : Option String × List String :=
+  match (outField out "sdp").bind parseNatList, (outField out "uni").bind parseNatList with
+  | some p1, some p2 =>
+    match chainVerdict "sdpkpp" ms k p1 with
+    | some r => (some ("reject " ++ r), [])
+    | none =>
+      match chainVerdict "union" ms k p2 with
+      | some r => (some ("reject " ++ r), [])
+      | none => (none, (if p1.length ≥ 2 then ["sdp-chain>=2"] else []) ++ (if p2 ≠ p1 then ["union-differs"] else []))
+  | _, _ => (some "bad-op sdp-output", [])
+
+def verdictSdp (ks mss out : String) : String :=
+  match parseNat ks, parsePairs mss with
+  | some k, some ms =>
+    if k = 0 || !strictLex ms then "bad-op sdp-domain" else
+    match sdpCheck ms k out with
+    | (some v, _) => panicOr out v
+    | (none, tags) => "ok" ++ (if tags.contains "sdp-chain>=2" then " nt" else "") ++ " sdp" ++ String.join (tags.map (" " ++ ·))
+  | _, _ => "bad-op sdp-parse"
+
+def verdictKmer (ks xh yh out : String) : String :=
+  match parseNat ks, parseHex xh, parseHex yh with
+  | some k, some x, some y =>
+    if k = 0 then "bad-op kmer-domain" else
+    let exp := kmerMatches x y k
+    match (outField out "m").bind parsePairs, (outField out "h1").bind parsePairs, (outField out "h2").bind parsePairs with
+    | some m, some h1, some h2 =>
+      if m ≠ exp then "diff m=" ++ showPairs exp else
+      if h1 ≠ exp then "diff h1=" ++ showPairs exp else
+      if h2 ≠ exp then "diff h2=" ++ showPairs exp else
+      match lcsCheck exp k out with
+      | (some v, _) => v
+      | (none, t1) =>
+        match sdpCheck exp k out with
+        | (some v, _) => v
+        | (none, t2) =>
+          "ok" ++ (if exp.length ≥ 2 then " nt" else "") ++ " kmer" ++ (if exp.isEmpty then " no-match" else "")
+            ++ (if x.length < y.length then " x-shorter" else " y-shorter-or-equal") ++ String.join ((t1 ++ t2).map (" " ++ ·))
+    | _, _, _ => panicOr out "bad-op kmer-output"
+  | _, _, _ => "bad-op kmer-parse"
+
+def hamming (a b : List Nat) : Nat := ((a.zip b).filter fun (x, y) => x ≠ y).length
+
+def verdictExpand (ks mms xh yh mss out : String) : String :=
+  match parseNat ks, parseNat mms, parseHex xh, parseHex yh, parsePairs mss with
+  | some k, some mm, some x, some y, some ms =>
+    if k = 0 || !strictLex ms || !(ms.all fun m => m.1 + k ≤ x.length && m.2 + k ≤ y.length) then "bad-op expand-domain" else
+    match (outField out "exp").bind parsePairs with
+    | some ex =>
+      if !strictLex ex then "reject expand-not-strictly-sorted" else
+      if !(ms.all (ex.contains ·)) then "reject expand-lost-a-given-match" else
+      if !(ex.all fun m => m.1 + k ≤ x.length && m.2 + k ≤ y.length) then "reject expand-out-of-range" else
+      let exact := ms.all fun m => window k x m.1 == window k y m.2
+      if exact && !(ex.all fun m => hamming (window k x m.1) (window k y m.2) ≤ 2 * mm) then "reject expand-too-many-mismatches" else
+      match lcsCheck ex k out with
+      | (some v, _) => v
+      | (none, t1) => "ok" ++ (if ex.length > ms.length then " nt grew" else "") ++ " expand" ++ (if mm = 0 then " mm0" else "")
+          ++ (if exact then " exact-seeds" else "") ++ String.join (t1.map (" " ++ ·))
+    | none => panicOr out "bad-op expand-output"
+  | _, _, _, _, _ => "bad-op expand-parse"
+
+def verdict (toks : List String) (out : String) : String :=
+  match toks with
+  | ["codes", a, q, t] => verdictCodes a q t out
+  | ["idx", a, q, mc, t, qs] => verdictIdx a q mc t qs out
+  | ["kmer", k, x, y, _, _, _] => verdictKmer k x y out
+  | ["lcs", k, ms] => verdictLcs k ms out
+  | ["sdp", k, _, _, _, ms] => verdictSdp k ms out
+  | ["expand", k, mm, x, y, ms] => verdictExpand k mm x y ms out
+  | _ => "bad-op arity"
 
 end RbV.Drv.C19
